@@ -8,6 +8,8 @@ import MidoModel.Backend
 import MidoModel.Syx
 import MidoModel.PortsSeq
 import MidoModel.Socket
+import MidoModel.MsgObj
+import MidoModel.Heap
 /- Text protocol helpers for the driver: parsing requests, printing canonical results. -/
 namespace Mido
 
@@ -260,6 +262,22 @@ def LOut.show : LOut → String
   | .yielded ms e => "yield " ++ commaList (ms.map toString) ++ " " ++ e.show
 def Port.showState (p : Port) : String :=
   s!"closed={if p.closed then 1 else 0} queue={commaList (p.queue.map toString)} log={commaList (p.log.map LogEv.show)} sleeps={p.sleeps}"
+
+def MObj.show (o : MObj) : String :=
+  " ".intercalate (o.type.name :: o.vals.map PyVal.show) ++ " time=" ++ o.time.show
+
+def showObjState (cur : Option MObj) (e : Option Err) : String :=
+  (match e with | none => "ok" | some x => "err " ++ x.name) ++ " ; " ++
+  (match cur with | some o => o.show | none => "-")
+
+def Body.show : Body → String
+  | .msg o => "Message " ++ o.show
+  | .metaB m t => "MetaMessage " ++ m.show ++ " time=" ++ t.show
+  | .unk tb d t => s!"UnknownMetaMessage {tb.show} {d.show} time={t.show}"
+def HObj.show (o : HObj) : String := (if o.frozen then "F:" else "U:") ++ o.body.show
+def HOut.show : HOut → String
+  | .ref i => s!"ref {i}" | .none => "none" | .raised e => "err " ++ e.name | .bool b => if b then "true" else "false"
+  | .hashed items => "hash " ++ " ".intercalate (items.map (fun kv => kv.1 ++ "=" ++ kv.2.show)) | .unit => "ok"
 
 /-- run-length compression `x*n` of equal neighbours, joined by `;` -/
 def rle (xs : List String) : String :=
